@@ -39,10 +39,12 @@ type Loaded struct {
 	loadS   float64
 }
 
+var extraHarness []string
+
 func harnessFiles() []string {
 	fs, _ := filepath.Glob(filepath.Join(verifDir, "harness", "*.go"))
 	sort.Strings(fs)
-	return fs
+	return append(fs, extraHarness...)
 }
 
 func load() (*Loaded, error) {
@@ -201,6 +203,15 @@ func cmdRun(args []string) int {
 	workers := fs.Int("workers", runtime.NumCPU(), "workers")
 	verbose := fs.Bool("v", false, "verbose")
 	tier, _, _ := tierFromArgs(fs, args[1:])
+	if strings.Contains(name, "_gen_") {
+		gp, _, gerr := generateAPIHarness()
+		if gerr != nil {
+			fmt.Fprintln(os.Stderr, gerr)
+			return 2
+		}
+		extraHarness = append(extraHarness, gp)
+		defer os.RemoveAll(filepath.Dir(gp))
+	}
 	l, err := load()
 	if err != nil {
 		fmt.Fprintln(os.Stderr, err)
